@@ -259,7 +259,7 @@ def run_shard(ctx):
     classes = ref_decl.all_classes()
     defined = ref_decl.defined_classes()
     thorough = ctx.tier == "thorough"
-    reps = 1 if not thorough else 5
+    reps = 1 if not thorough else 25
     if ctx.shard == 0:
         for nm, c in defined.items():
             ctx.ev()
